@@ -47,7 +47,7 @@ FEAT = gen.Feat(inherit=True, items=True, uncached=True, objrefs=False, shadow=F
                 max_cells=3, max_rank=3, depth=1, tick=False)
 BAD_NAMES = ["3S", "_hid", "for", "a b", "", "x-y", "dé f", "Abc\n", "x1\n", " lead", "trail "]
 BAD_FORMULAS = ["def bad(x) return", "x = 1\ny = 2", "1 + 1", "def f(:\n    pass", "lambda x: (", "import os",
-                {"obj": "two_lambdas"}, {"obj": "builtin"}, {"obj": "partial"}]
+                {"obj": "two_lambdas"}, {"obj": "builtin"}, {"obj": "partial"}, {"obj": "no_source"}]
 
 
 def plan(tier):
@@ -62,7 +62,7 @@ def gen_invalid(draw, G):
         return None
     s = draw(st.sampled_from(spaces))
     p = list(s.path)
-    k = draw(st.integers(0, 23))
+    k = draw(st.integers(0, 26))
     bad = draw(st.sampled_from(BAD_NAMES))
     if k == 0:
         return ["new_space_raw", draw(st.sampled_from([[], p])), bad, None, None]
@@ -158,7 +158,27 @@ def gen_invalid(draw, G):
             return ["_seq", [["new_cells_raw", list(t.path), n, "lambda: 1"], ["add_bases", p, [list(t.path)]]]]
     if k == 21:
         return ["del_member", p, "no_such_member"]
-    if k >= 22:
+    if k == 24:
+        # copying a space into itself or into one of its descendants
+        inside = [t for t in spaces if t.path[:len(s.path)] == s.path]
+        return ["copy_space", p, list(draw(st.sampled_from(inside)).path), "Cpy"]
+    if k >= 25:
+        # as below, but the space that is given the unresolvable base already has sub spaces (a diamond when the
+        # model has one): the rejection has to undo a derivation that ran through all of them
+        sibs = [t for t in spaces if t.path[:-1] == s.path[:-1] and t is not s]
+        others = [t for t in spaces if t.path[:len(s.path)] != s.path and t.path != s.path[:-1]
+                  and s.path[:len(t.path)] != t.path and t not in G.subs(s) and s not in G.subs(t)]
+        withsubs = [t for t in others if G.subs(t)]
+        if sibs and others:
+            tgt = draw(st.sampled_from(withsubs or others))
+            seq = [["set_ref", p, "rel2", ["o", list(draw(st.sampled_from(sibs)).path)], "relative"]]
+            if not G.subs(tgt):
+                # make a diamond under the target: Dm1(tgt), Dm2(tgt), Dm3(Dm1, Dm2)
+                seq += [["new_space_raw", [], "Dm1", [list(tgt.path)], None], ["new_space_raw", [], "Dm2", [list(tgt.path)], None],
+                        ["new_space_raw", [], "Dm3", [["Dm1"], ["Dm2"]], None]]
+            seq.append(["add_bases", list(tgt.path), [p]])
+            return ["_seq", seq]
+    if 22 <= k <= 23:
         # a base with a resolvable (auto, to its own child) and an unresolvable (relative, to a sibling) reference,
         # then a new space elsewhere deriving from it: the request is rejected after part of the derivation ran
         kids = [t for t in spaces if t.path[:-1] == s.path]
@@ -267,6 +287,8 @@ def run_case(case):
         held = real.held()
         nsubs = sum(1 for sp in real.all_static_spaces() if sp._direct_bases)
         res = real.apply(op)
+        if res == ("err", "HarnessTimeout"):
+            return out.fail("non-terminating", "%r did not return within 3 seconds (and is not refused)" % (op,), i)
         if res[0] == "ok":
             out.count("accepted")
             f = wellformed(real)
